@@ -271,6 +271,14 @@ def listener(rep, dbg, vm):
         return
     clos = [x for x in walk(h["body"]) if kind(x) == "Closure" and len(x["params"]) == 2]
     if not clos:
+        # the listener is built elsewhere in the crate (`SessionShared::into_listener`) and handed to the spawner: the
+        # two-parameter closure that parks the thread
+        for b in dbg.bodies:
+            if b.get("body") is None or b.get("exp"):
+                continue
+            clos += [x for x in walk(b["body"]) if kind(x) == "Closure" and len(x["params"]) == 2 and any(
+                kind(y) == "Call" and callee(y) == PARK for y in walk(x["body"]))]
+    if not clos:
         r.lost("listener closure in DebuggerContext::handle")
         return
     clo = clos[0]
